@@ -13,6 +13,7 @@
 #include <crab/analysis/dataflow/liveness.hpp>
 #include <crab/analysis/fwd_analyzer.hpp>
 #include <crab/checkers/assertion.hpp>
+#include <crab/checkers/div_zero.hpp>
 #include <crab/checkers/checker.hpp>
 
 using namespace vb;
@@ -372,23 +373,33 @@ void run_program(const ProgId &id, const std::string &only_dom) {
             // (a) forward analysis + assertion checker
             typedef crab::checker::intra_checker<fwd_t> checker_t;
             typedef crab::checker::assert_property_checker<fwd_t> assert_chk_t;
-            typename checker_t::prop_checker_ptr pc(new assert_chk_t(0));
-            checker_t chk(a, {pc});
-            chk.run();
-            crab::checker::checks_db db = chk.get_all_checks();
-            for (auto &kv : db.get_all_checks()) {
-              int aid = (int)kv.first.get_id();
-              for (auto k : kv.second) {
-                if (k == crab::checker::check_kind::CRAB_SAFE) {
-                  n_safe++;
-                  if (R.violated.count(aid))
-                    report(dc.e->name, "fwd-checker:safe-but-violated", cspec, ctx + " => assertion #" + std::to_string(aid) + " reported SAFE but some execution violates it");
-                } else if (k == crab::checker::check_kind::CRAB_UNREACH) {
-                  n_unreach++;
-                  if (R.reached.count(aid))
-                    report(dc.e->name, "fwd-checker:unreachable-but-reached", cspec, ctx + " => assertion #" + std::to_string(aid) + " reported UNREACHABLE but some execution reaches it");
-                } else
-                  n_warn++;
+            // twice: the assertion checker alone, and after another property checker (all checkers of an intra_checker share
+            // one abstract transformer, which must be reset per checker)
+            typedef crab::checker::div_zero_property_checker<fwd_t> div_chk_t;
+            for (int second = 0; second < 2; second++) {
+              typename checker_t::prop_checker_ptr pc(new assert_chk_t(0));
+              typename checker_t::prop_checker_ptr pd(new div_chk_t(0));
+              std::vector<typename checker_t::prop_checker_ptr> pcs;
+              if (second) pcs.push_back(pd);
+              pcs.push_back(pc);
+              checker_t chk(a, pcs);
+              chk.run();
+              crab::checker::checks_db db = pc->get_db(); // the assertion checker's own verdicts
+              const std::string tag = second ? "fwd-checker:after-div-zero-checker:" : "fwd-checker:";
+              for (auto &kv : db.get_all_checks()) {
+                int aid = (int)kv.first.get_id();
+                for (auto k : kv.second) {
+                  if (k == crab::checker::check_kind::CRAB_SAFE) {
+                    n_safe++;
+                    if (R.violated.count(aid))
+                      report(dc.e->name, tag + "safe-but-violated", cspec, ctx + " => assertion #" + std::to_string(aid) + " reported SAFE but some execution violates it");
+                  } else if (k == crab::checker::check_kind::CRAB_UNREACH) {
+                    n_unreach++;
+                    if (R.reached.count(aid))
+                      report(dc.e->name, tag + "unreachable-but-reached", cspec, ctx + " => assertion #" + std::to_string(aid) + " reported UNREACHABLE but some execution reaches it");
+                  } else
+                    n_warn++;
+                }
               }
             }
             // (b) forward+backward analyzer with every fwd_bwd parameter setting
